@@ -62,7 +62,7 @@ pub fn one_case(rng: &mut Rng, o: &GenOpts, prop: &str) -> CaseOut {
     for (k, v) in &ctx.mdc {
         log_mdc::insert(k.clone(), v.clone());
     }
-    let pieces = split_pieces(&ctx.message, rng);
+    let pieces = if LITERALS.contains(&ctx.message.as_str()) { vec![ctx.message.clone()] } else { split_pieces(&ctx.message, rng) };
     let short = rng.chance(1, 2);
     let mut out = CaseOut {
         pattern: pattern.clone(),
@@ -141,6 +141,56 @@ pub fn one_case(rng: &mut Rng, o: &GenOpts, prop: &str) -> CaseOut {
     out
 }
 
+/// Child: the zone's offset changes while the process runs (a DST transition, or TZ re-read by chrono after
+/// a second); a thread that already formatted a local date must use the new offset afterwards.
+pub fn child_zone(_args: &[String]) -> i32 {
+    use log4rs::encode::writer::simple::SimpleWriter;
+    let enc = PatternEncoder::new("{d(%z)(local)}|{d(%z)(utc)}|{d(%z)}");
+    let one = |enc: &PatternEncoder| -> String {
+        let mut buf = vec![];
+        let _ = enc.encode(&mut SimpleWriter(&mut buf), &log::Record::builder().build());
+        String::from_utf8_lossy(&buf).into_owned()
+    };
+    std::env::set_var("TZ", "UTC");
+    let a = one(&enc);
+    std::env::set_var("TZ", "JST-9");
+    std::thread::sleep(std::time::Duration::from_millis(1300));
+    let b = one(&enc);
+    let c = std::thread::scope(|s| s.spawn(|| one(&enc)).join().unwrap_or_default());
+    std::env::set_var("TZ", "XXX+3:30");
+    std::thread::sleep(std::time::Duration::from_millis(1300));
+    let d = one(&enc);
+    println!("RESULT {}", json!({"first": a, "same_thread_after_change": b, "fresh_thread_after_change": c, "after_second_change": d}));
+    0
+}
+
+fn zone_change(rep: &mut Report) {
+    if rep.only.is_some() {
+        return;
+    }
+    match crate::childproc::run_child(&["c09zone".to_owned()], &[], std::time::Duration::from_secs(60)) {
+        Err(e) => rep.inconclusive(&format!("cannot spawn zone child: {}", e)),
+        Ok(o) if o.timed_out => rep.inconclusive("zone child timed out"),
+        Ok(o) => {
+            let text = String::from_utf8_lossy(&o.stdout);
+            let Some(line) = text.lines().rev().find(|l| l.starts_with("RESULT ")) else {
+                rep.inconclusive("zone child produced no result");
+                return;
+            };
+            let v: serde_json::Value = serde_json::from_str(&line[7..]).unwrap_or_default();
+            rep.case_enumerated(true);
+            rep.count("zone_change_scenarios", 1);
+            let want = json!({"first": "+0000|+0000|+0000", "same_thread_after_change": "+0900|+0000|+0900",
+                "fresh_thread_after_change": "+0900|+0000|+0900", "after_second_change": "-0330|+0000|-0330"});
+            if v != want {
+                rep.violation("C09:local-date-after-offset-change", json!({"pattern": "{d(%z)(local)}|{d(%z)(utc)}|{d(%z)}",
+                    "history": "TZ=UTC, encode; TZ=JST-9, 1.3 s later encode on the same and on a fresh thread; TZ=XXX+3:30, encode",
+                    "expected": want, "got": v}));
+            }
+        }
+    }
+}
+
 pub fn run(rep: &mut Report) {
     set_test_zone();
     rep.rule = "patterns generated from an AST (all 17 formatters with both aliases, literal text over ASCII + 2/3/4-byte \
@@ -196,6 +246,9 @@ pub fn run(rep: &mut Report) {
     if rep.tier == "thorough" {
         // the verdict can flip between profiles (debug_assertions, overflow checks): repeat in release
         crate::subrun::merge(rep, "L4V_BIN_RELEASE", "C09", "release");
+    }
+    if std::env::var("L4V_SUBRUN").is_err() {
+        zone_change(rep);
     }
     rep.require(rep.counter("style_events_observed") > 100, "fewer than 100 style events observed");
     rep.require(rep.counter("cases_on_named_threads") > 10, "no cases on named threads");
